@@ -1,3 +1,43 @@
-from harness.props._engine_common import make
+import random
 
-explore, search, replay = make({"C07"})
+import networkx as nx
+
+from harness import engine_explore as ee
+from harness.props._engine_common import make
+from uberjob._util.networkx_util import topological_sort
+
+
+def kahn_diff(ctx, replay=None):
+    """T2: the Lean Kahn model vs the real topological_sort on random (cyclic and acyclic) multigraphs: exact yield order."""
+    rng = random.Random(ctx.seed * 31 + 7)
+    n_cases = 300 if ctx.tier == "quick" else 6000
+    lines, cases = [], []
+    for _ in range(n_cases):
+        n = rng.randint(0, 9)
+        g = ee.gen_graph(rng, n, p_edge=rng.choice([0.15, 0.3, 0.5]))
+        nodes = list(g.nodes())
+        for _ in range(rng.choice([0, 0, 1, 2])):          # back edges -> cycles
+            if n >= 2:
+                u, v = rng.sample(nodes, 2)
+                g.add_edge(u, v)
+        if n >= 1 and rng.random() < 0.05:
+            g.add_edge(nodes[0], nodes[0])                   # self loop
+        try:
+            impl = "order " + " ".join(map(str, topological_sort(g)))
+        except nx.HasACycle:
+            impl = "cycle"
+        cases.append((nodes, list(g.edges()), impl))
+        lines.append("kahn | %s | %s" % (" ".join(map(str, nodes)), " ".join("%d,%d" % (u, v) for u, v in g.edges())))
+    dis = []
+    if ctx.driver is not None:
+        out = ctx.driver.batch(lines)
+        for (nodes, edges, impl), model in zip(cases, out):
+            if impl.strip() != model.strip():
+                dis.append({"layer": "kahn", "nodes": nodes, "edges": edges, "impl": impl, "model": model})
+                break
+    cyc = sum(1 for c in cases if c[2] == "cycle")
+    return {"violations": [], "disagreements": dis,
+            "coverage": {"kahn_graphs": len(cases), "kahn_cyclic": cyc, "programs": len(cases)}}
+
+
+explore, search, replay = make({"C07"}, user_q=(50, 10, 40), user_t=(1200, 300, 1200), extra=kahn_diff)
